@@ -149,6 +149,27 @@ theorem xstepE_is_run (st : State) (hist : List Event) (x : XOp) :
       simp only
       rw [hr']
       simp [xstepE, Variant.real, List.append_assoc]
+  | feedCancel fid n cut =>
+    obtain ⟨ws, hw, hr⟩ := scriptStep_is_run st hist (.feed fid n)
+    obtain ⟨ws', hw', hr'⟩ := scriptStep_is_run (scriptStep st (.feed fid n)).1
+      (hist ++ scriptEvents st (.feed fid n)) (.cancel fid)
+    refine ⟨(Op.feed fid n :: Op.wake :: ws) ++ (Op.cancel fid :: Op.wake :: ws'), ?_, ?_⟩
+    · intro _ p hp
+      rcases List.mem_append.mp hp with hp | hp
+      · rcases List.mem_cons.mp hp with h | hp
+        · subst h; trivial
+        rcases List.mem_cons.mp hp with h | hp
+        · subst h; trivial
+        · exact ok_of_write (hw p hp)
+      · rcases List.mem_cons.mp hp with h | hp
+        · subst h; trivial
+        rcases List.mem_cons.mp hp with h | hp
+        · subst h; trivial
+        · exact ok_of_write (hw' p hp)
+    · rw [runFrom_append, hr]
+      simp only
+      rw [hr']
+      simp [xstepE, Variant.real, List.append_assoc]
 
 theorem xrunFrom_is_run (xs : List XOp) :
     ∀ (st : State) (hist : List Event),
